@@ -138,6 +138,18 @@ CHECKS = {
          '(whitespace runs replaced incl. LF/CRLF/tabs, 25 hostile comment bodies at statement boundaries, last semicolons toggled) compiles to '
          'byte-identical CSS.'),
    note=BASE_NOTE + ' The regular expressions that cut text into lexemes and comments are validated by the hostile bodies, not proved.'),
+ 'C01': dict(category='proof',
+   technique='Lean 4: plain-sheet identity theorem on the nesting model, resting on the theorems of C02/C08/C11/C12; same-canonicaliser oracle on source and output',
+   text=('C01_rules: a sheet of plain rules (any number, any selector token lists, any declaration lists) compiles in the model to exactly '
+         'those rules - one output rule per source rule with declarations, in source order, with its own selector list and exactly its '
+         'declarations in order (nothing dropped, duplicated, merged or reordered); C01_simple_selector/C01_no_parent: without an enclosing rule '
+         'a selector is only re-encoded. The remaining parts of the statement are theorems of other properties: every token type after which a '
+         'descendant or value space must survive is in the regenerated significant-whitespace set (C12_table), hex literals are normalised '
+         'to the same colour (C08_fmt), tokens are printed verbatim under every option vector (C11_erase, C11_layout). Tie/oracle: all ordered '
+         'pairs of 8 compound kinds x 4 combinators, all ordered pairs of 5 value kinds x 3 separators, !important spellings, 9 media query '
+         'shapes and random sheets under random option vectors: canonicalised source = canonicalised output (colours after normalisation); '
+         'catalogue selectors through Lessm.Sel.identParse = real output.'),
+   note=BASE_NOTE + ' Open known findings C01-hex-id, C01-star-joined, C01-reserved-words; spaces after a string token or a closing parenthesis are dropped by the lexer filter (same CSS token sequence) and are canonicalised away.'),
 }
 NOT_APPLICABLE = {p: 'check under construction in this round (see DESIGN.md section 10 build order); not claimed yet' for p in
-  ['C01','C10','C13','C14','C15','C16','C20']}
+  ['C10','C13','C14','C15','C16','C20']}
